@@ -1,10 +1,10 @@
 package props
 
 import (
-	"strconv"
 	"fmt"
 	"go/ast"
 	"go/types"
+	"strconv"
 	"strings"
 
 	"pdfverif/internal/core"
